@@ -64,6 +64,8 @@ pub struct IntSource {
     pub reads: usize,
     /// what `len_hint` answers (it is only a hint: it may be absent or inaccurate)
     pub hint: Option<usize>,
+    /// issue an empty fill before the fill that delivers the block (a no-op for the buffer and the context)
+    pub empty_first: bool,
 }
 
 impl Source for IntSource {
@@ -83,6 +85,9 @@ impl Source for IntSource {
         self.reads += 1;
         let want = block_size * self.ch;
         let end = (self.pos + want).min(self.samples.len());
+        if self.empty_first {
+            dest.fill_interleaved(&[])?;
+        }
         dest.fill_interleaved(&self.samples[self.pos..end])?;
         let n = (end - self.pos) / self.ch;
         self.pos = end;
@@ -223,15 +228,17 @@ pub fn encode_stream(input: &Input, samples: &[i32], cfg: &Verified<config::Enco
         0 => flacenc::encode_with_fixed_block_size(cfg, MemSource::from_samples(samples, ch, bps, rate), bs),
         1 => flacenc::encode_with_fixed_block_size(
             cfg,
-            IntSource { ch, bps, rate, samples: samples.to_vec(), pos: 0, reads: 0, hint: None },
+            IntSource { ch, bps, rate, samples: samples.to_vec(), pos: 0, reads: 0, hint: None, empty_first: false },
             bs,
         ),
         // inaccurate length hints: the length rounded up / down to a whole number of blocks
         3 | 4 => {
             let n = samples.len() / ch.max(1);
             let hint = if input.delivery == 3 { (n + bs - 1) / bs * bs } else { n / bs * bs };
-            flacenc::encode_with_fixed_block_size(cfg, IntSource { ch, bps, rate, samples: samples.to_vec(), pos: 0, reads: 0, hint: Some(hint) }, bs)
+            flacenc::encode_with_fixed_block_size(cfg, IntSource { ch, bps, rate, samples: samples.to_vec(), pos: 0, reads: 0, hint: Some(hint), empty_first: false }, bs)
         }
+        // full reads, each preceded by an empty fill
+        5 => flacenc::encode_with_fixed_block_size(cfg, IntSource { ch, bps, rate, samples: samples.to_vec(), pos: 0, reads: 0, hint: None, empty_first: true }, bs),
         _ => flacenc::encode_with_fixed_block_size(
             cfg,
             ByteSource { ch, bps, rate, bytes: to_le_bytes(samples, bps), pos: 0 },
@@ -267,6 +274,10 @@ pub fn encode_framewise(
                 fb.fill_le_bytes(&b, by).map_err(|e| format!("{e:?}"))?;
                 ctx.fill_le_bytes(&b, by).map_err(|e| format!("{e:?}"))?;
             } else {
+                if input.delivery == 5 {
+                    fb.fill_interleaved(&[]).map_err(|e| format!("{e:?}"))?;
+                    ctx.fill_interleaved(&[]).map_err(|e| format!("{e:?}"))?;
+                }
                 fb.fill_interleaved(blk).map_err(|e| format!("{e:?}"))?;
                 ctx.fill_interleaved(blk).map_err(|e| format!("{e:?}"))?;
             }
